@@ -29,17 +29,17 @@ X5(c, off, d) == (c.pth * off * d) \div 100
 \* (x^2 / 1000 is computed as (x div 4)^2 * 2 div 125 to stay inside TLC's 32-bit
 \* integers; the error is below 2 counts of 10 000 on the whole box)
 CountsAt(c, x) == LET q == x \div 4 IN
-                  100 * c.A + ((c.B * x) \div 1000) + (((((q * q) * 2) \div 125) * c.C) \div 100000)
+                  100 * c.A + ((c.B * x) \div 1000) + ((((((q * q) \div 125) * 2) \div 100) * c.C) \div 1000)
 Counts(c, off, d) == CountsAt(c, X5(c, off, d))
 
 Points(c) == { <<d, off>> : d \in { c.ds[j] : j \in DOMAIN c.ds }, off \in { c.offs[j] : j \in DOMAIN c.offs } }
 \* Well conditioned: over the whole range of the scaling variable every
 \* planted logical error rate is inside (2%, 90%) and the ansatz is strictly
 \* increasing (so the curves of different distances cross at p_th only).
-\* XMax over-approximates |x| for every nu of the box (d^1.25 <= 7d/4 for d <= 9).
+\* XMax over-approximates |x| for every nu of the box (d^1.25 <= 2 d for d <= 16).
 MaxOf(S) == CHOOSE m \in S : \A y \in S : y <= m
 XMax(c) == LET x == X5(c, MaxOf({ c.offs[j] : j \in DOMAIN c.offs }), MaxOf({ c.ds[j] : j \in DOMAIN c.ds }))
-           IN IF c.nu > 100 THEN (7 * x) \div 4 + 1 ELSE x
+           IN IF c.nu > 100 THEN 2 * x ELSE x
 WellConditioned(c) ==
     /\ CountsAt(c, -XMax(c)) > 200
     /\ CountsAt(c, XMax(c)) < 9000
@@ -58,13 +58,18 @@ RawBox(big) ==
         A \in (IF big THEN {10, 20, 30} ELSE {10, 30}),
         B \in (IF big THEN {100, 150, 200} ELSE {100, 200}),
         C \in (IF big THEN {50, 200, 400} ELSE {50, 400}),
-        ds \in { <<5, 7, 9>>, <<3, 5, 7, 9>> },
+        \* two-digit sizes: the code labels then sort differently from the distances
+        ds \in { <<5, 7, 9>>, <<3, 5, 7, 9>>, <<6, 10, 14>>, <<8, 10, 12>> },
         offs \in {Offs7, Offs9},
         fam \in {"RotatedPlanar2DCode"} }
     \cup
     { Case(pth, 100, 20, 150, 200, <<4, 6, 8>>, Offs7, "Toric2DCode") : pth \in {500, 1000, 1500} }
 
 Box(big) == { c \in RawBox(big) : WellConditioned(c) }
+
+\* which part of the data the fit uses: everything, the automatic truncation
+\* heuristic, or a manual window that drops the outermost rate on each side
+Modes == {"all", "auto", "override"}
 
 \* layouts: how the rows reach the estimator.  perm(i) = (a i + b) mod m
 Layouts ==
